@@ -218,3 +218,19 @@ impl<T> EventNode<T> {
         (unsafe { this.value.take().unwrap_unchecked() }, this.time)
     }
 }
+
+#[cfg(petrichorit_des_verif)]
+impl<T> DualLinkedList<T> {
+    /// verification hook: `(event id, time, node address)` of every element, front to back
+    pub(super) fn verif_nodes(&self) -> Vec<(usize, std::time::Duration, usize)> {
+        let mut out = Vec::new();
+        let mut cur = self.head.next;
+        unsafe {
+            while !(*cur).next.is_null() {
+                out.push(((*cur).id, (*cur).time, cur as usize));
+                cur = (*cur).next;
+            }
+        }
+        out
+    }
+}
